@@ -25,7 +25,7 @@ type TargetResult struct {
 func newExec(w *World, target string) *Exec {
 	x := &Exec{g: NewGen(), w: w, compCache: map[types.Type][]comp{}, tags: map[string]uint32{}, tagTypes: map[uint32]types.Type{},
 		oblCount: map[string]int{}, notes: map[string]bool{}, target: target, globalsInit: map[string]string{}, budget: 400000,
-		strIDs: map[string]string{}}
+		strIDs: map[string]string{}, sentinels: map[string]uint32{}, cells: map[string]*cellMeta{}}
 	return x
 }
 
@@ -80,6 +80,10 @@ func (x *Exec) runInit(pkg *ssa.Package, heap *Heap) *Heap {
 	x.noInline = true
 	x.specDepth++
 	f := x.newFrame(init, nil, nil, true)
+	// the initialiser has not run yet
+	heap = heap.clone()
+	gk := "global:" + pkg.Pkg.Name() + ".init$guard"
+	x.hset(heap, gk, SortBool, "", "(store "+x.hget(heap, gk, SortBool, "")+" "+refLit(1)+" false)", refLit(1))
 	func() {
 		defer func() {
 			if r := recover(); r != nil {
